@@ -351,6 +351,14 @@ func c10Run(c core.Case, env *core.Env) core.Result {
 			continue
 		}
 		r.Count("roundtrips_verified", 1)
+		// verification has no side effect on the proof: the same in-memory proof verifies again, and encodes the same way
+		ok2, pm2 := in.safeVerify(in.comps, in.sess, in.stmt)
+		rok2, _ := in.roundtrip()
+		if pm2 != "" || !ok2 || !rok2 {
+			r.Fail("second-verify-rejected:"+in.sys, "an honest proof that verified once is rejected when verified (%v) / encoded and verified (%v) a second time %s", ok2, rok2, pm2)
+			continue
+		}
+		r.Count("second_verifications", 1)
 		// histograms that show which branches of the provers were exercised
 		switch c.P.Str("sys") {
 		case "mod":
